@@ -594,6 +594,30 @@ func generate(o *hlib.Out, cfg hlib.Config, sz sizes) {
 	o.Stat("generated_not_compiling_in_reference", nonCompiling)
 	o.Stat("generated_dropped_long_or_duplicate", dropped)
 	o.Stat("inputs", len(inputs))
+	nExtIn, nExtProg, nExtPairs := 0, 0, 0
+	extIn := make([]bool, len(inputs))
+	for i, v := range inputs {
+		if hasExtKey(v) || hasExtKey(inJSON[i]) {
+			extIn[i] = true
+			nExtIn++
+		}
+	}
+	for _, p := range progs {
+		if p.feats["extkey"] {
+			nExtProg++
+		}
+		for _, ii := range p.inputs {
+			if p.feats["extkey"] || (extIn[ii] && strings.Contains(p.text, "fromjson")) {
+				nExtPairs++
+			}
+		}
+	}
+	// documents whose object keys are fq's ext-key names (_error, _format, …): generated inputs that contain one,
+	// programs built around one, and (program, input) pairs that send one through fromjson
+	o.Stat("extkey_docs", nExtIn+nExtProg)
+	o.Stat("extkey_inputs", nExtIn)
+	o.Stat("extkey_programs", nExtProg)
+	o.Stat("extkey_fromjson_pairs", nExtPairs)
 	o.Stat("pairs_not_generated_fromjson_of_nonstring", excludedFromjson)
 	o.Stat("batches", int(batches))
 	o.Stat("batches_rerun_one_by_one", int(fallbackBatches))
